@@ -22,6 +22,7 @@ def reader_jobs(ck):
     jobs = [{"id": i, "seed": r.randrange(1 << 30), "model": {"c08": n}} for i, n in enumerate(C08_EXTRAS)]
     jobs.append({"id": len(jobs), "seed": 0, "model": {"chunk": True}, "pads": [100, 16350, 16360, 16370, 16376, 32750, 70000]})
     jobs.append({"id": len(jobs), "seed": 0, "model": {"enc": True}})
+    jobs.append({"id": len(jobs), "seed": r.randrange(1 << 30), "model": {"plumbing": True}, "n": ck.n(12, 150)})
     for name in ("wildtail", "anytype", "union", "wrappers", "poly"):
         jobs.append({"id": len(jobs), "seed": r.randrange(1 << 30), "model": {"extra": name}, "n_docs": 3})
     for _ in range(ck.n(36, 400)):
@@ -72,6 +73,12 @@ def reader_correspondence(ck, fut):
                 ck.failure(f"encoding-{x['variant']}-{x['handler']}-handler",
                            f"document declared/encoded as {x['variant']} through the {x['handler']} handler from a {x['source']} source does not give "
                            f"the object of the str source: {x['why']} ({x['doc'][:120]!r})", {"job": {"seed": j["seed"], "model": j["model"]}, "case": x})
+        for x in j.get("plumbing", []):
+            stats["plumbing_cases"] = stats.get("plumbing_cases", 0) + 1
+            if x.get("why"):
+                ck.failure(f"handlers-{x['kind']}-{x['handler']}-{x['source']}",
+                           f"({x['kind']}) {x['handler']} handler, {x['source']} source: {x['why']}; document {x['doc'][:250]!r}, expected {x['expected']}",
+                           {"job": {"seed": j["seed"], "model": j["model"]}, "case": x})
         for t in j.get("tree", []):
             if t.get("render_exc"):
                 continue          # rendering failures are the writers oracle's subject
@@ -83,7 +90,7 @@ def reader_correspondence(ck, fut):
         stats["encoding_cases"] = stats.get("encoding_cases", 0) + (j.get("enc_n", 0) or len(j.get("enc", [])))
         stats["encoding_docs_nonascii"] = stats.get("encoding_docs_nonascii", 0) + bool(j.get("enc_nonascii"))
         stats["tree_cases"] = stats.get("tree_cases", 0) + j.get("tree_n", 0)
-        if "chunk" in j or "enc" in j["model"]:
+        if "chunk" in j or "enc" in j["model"] or "plumbing" in j["model"]:
             continue
         if j.get("skipped") or not j.get("universe") or not j.get("conv"):
             stats["skipped_jobs"] += 1
@@ -224,6 +231,68 @@ def qattr_job(ck):
     return {"src": QATTR_SRC, "name": f"qattr_{ck.seed}", "root": "Root", "instances": insts, "cases": cases}
 
 
+# hostile character data in every position a writer prints it: element text, attribute values (qualified and not), mixed
+# content strings, text / tail / attributes of generic elements.  Oracle (impl_binding 'writers'): every backend's output
+# is well-formed for an independent strict parser and the three infosets agree; 'roundtrip': it reads back as the object.
+HOSTILE = ["]]>", "a]]>b", ">", "a > b >> c", "x\ry", "x\r\ny", "l1\nl2", "t\tt", "n\u0085e", "l\u2028s", "&amp;", "&#13;", "&lt;x&gt;", "&unknown;",
+           "&#x26;#60;", "<![CDATA[x]]>", "<!--c-->", "<?pi?>", "--", "'\"", "\"'<>&", " lead", "trail ", "]]", "]>", "&", "<", "\u00e9]]>\u4e2d"]
+HOSTILE_SRC = G.HEADER + '''
+@dataclass
+class Mx:
+    content: list[object] = field(default_factory=list, metadata={"type": "Wildcard", "namespace": "##any", "mixed": True})
+
+@dataclass
+class H:
+    a: Optional[str] = field(default=None, metadata={"type": "Attribute"})
+    b: Optional[str] = field(default=None, metadata={"type": "Attribute", "namespace": "urn:h"})
+    t: list[str] = field(default_factory=list, metadata={"type": "Element"})
+    mx: Optional[Mx] = field(default=None, metadata={"type": "Element"})
+    w: list[object] = field(default_factory=list, metadata={"type": "Wildcard", "namespace": "##other"})
+'''
+
+
+def hostile_job(ck):
+    r = ck.rng
+
+    def hv(solid=False):
+        v = r.choice(HOSTILE)
+        if r.random() < 0.3:
+            v = v + r.choice(HOSTILE)
+        if solid and not v.strip():
+            v = "s" + v
+        return v
+
+    def anyel(depth=0):
+        return {"__any__": {"qname": r.choice(["{urn:o}k", "{urn:o}k2"]), "text": hv() if r.random() < 0.7 else "", "tail": None,
+                            "attributes": {"x": hv()} if r.random() < 0.5 else {},
+                            "children": [anyel(depth + 1) for _ in range(r.choice([0, 0, 1]) if depth < 1 else 0)]}}
+
+    def mixed():
+        out = []
+        for _ in range(r.randint(1, 3)):
+            out.append(_s(hv(True)))
+            out.append(anyel())
+        if r.random() < 0.5:
+            out.append(_s(hv(True)))
+        return out
+    insts = []
+    for _ in range(ck.n(10, 120)):
+        insts.append({"__cls__": "H", "fields": {"a": _s(hv()) if r.random() < 0.8 else None, "b": _s(hv()) if r.random() < 0.6 else None,
+                                                 "t": [_s(hv(True)) for _ in range(r.randint(0, 3))],
+                                                 "mx": {"__cls__": "Mx", "fields": {"content": mixed()}} if r.random() < 0.7 else None,
+                                                 "w": [anyel() for _ in range(r.choice([0, 1, 2]))]}})
+    # every hostile string at least once as element text and as attribute value
+    insts.append({"__cls__": "H", "fields": {"a": None, "b": None, "t": [_s(v) for v in HOSTILE if v.strip()], "mx": None, "w": []}})
+    insts += [{"__cls__": "H", "fields": {"a": _s(v), "b": _s(v), "t": [], "mx": None, "w": []}} for v in HOSTILE]
+    cases = []
+    for i in range(len(insts)):
+        cases.append({"i": i, "op": "writers", "config": r.choice([{}, {"xml_declaration": False}]), "ns_map": r.choice([None, None, {"h": "urn:h"}, {"": "urn:h"}])})
+        if insts[i]["fields"]["mx"] is None:      # mixed content does not read back as the same LIST (text after a child is its tail): C11
+            for w in ("native", "lxml"):
+                cases.append({"i": i, "op": "roundtrip", "writer": w, "handler": r.choice(["native", "lxml"]), "strict": True})
+    return {"src": HOSTILE_SRC, "name": f"hostile_{ck.seed}", "root": "H", "instances": insts, "cases": cases}
+
+
 def run(ck: Check):
     ck.level = "proof"
     r = ck.rng
@@ -246,6 +315,7 @@ def run(ck: Check):
             cases.append({"i": i, "op": "handlers", "rewrite_seed": r.randrange(1 << 30) if r.random() < 0.6 else None})
         jobs.append({"src": G.render_source(m), "name": f"gm_{ck.seed}_{k}", "root": m["root"], "instances": insts, "cases": cases})
     jobs.append(qattr_job(ck))
+    jobs.append(hostile_job(ck))
     out = []
     for i in range(0, len(jobs), 20):
         out += run_impl("impl_binding.py", jobs[i:i + 20], timeout=1800)
@@ -301,7 +371,7 @@ def run(ck: Check):
     except common.BuildError as e:
         ck.broken_obligation("corr-reader:" + e.target, e.log)
         rstats, rsamples = {"cases": 0}, []
-    ck.cov["evaluations"] = n + rstats["cases"] + rstats.get("encoding_cases", 0) + rstats.get("tree_cases", 0)
+    ck.cov["evaluations"] = n + rstats["cases"] + rstats.get("encoding_cases", 0) + rstats.get("tree_cases", 0) + rstats.get("plumbing_cases", 0)
     ck.cov["distinct_nontrivial"] = n + rstats["cases"]
     ck.cov["rule"] = ("reader correspondence: one case = (model, printed document with its declarations, parser options) -> events, outcome and "
                       "recorder map of both REAL handlers (+ lxml tree and ElementTree sources) compared in Coq with Model/Reader.v, oracle and "
